@@ -118,7 +118,10 @@ def run_shard(ctx):
             allow = kind == "same-name-allowed"
             expect_reject = not allow
         if kind == "same-dir-twice":
-            extra, allow, expect_reject = [root], False, False
+            # the same directory twice is one directory; but another directory of the same name among the lookups is a
+            # collision when collisions are disallowed
+            others_same_name = any(r["name"].lower() == ns["roots"][0]["name"].lower() for r in ns["roots"][1:])
+            extra, allow, expect_reject = [root], False, others_same_name
         configs.append({"id": "dir-%d" % cid, "call": "read_namespace", "spelling": "abs-path", "shuffle": False, "reorder": False,
                         "perturb_seed": 1, "extra_lookups": extra, "allow_collision": allow, "group": "dir", "dir_kind": kind, "expect_reject": expect_reject})
         trees.append({"id": "t%d" % k, "base": str(base), "root": root, "lookups": lookups, "configs": configs})
